@@ -423,7 +423,7 @@ func genInClass(r *Rng, maxOps int, dataHeavy bool, big []int, bigDen int) ([]st
 
 // ---- class o: no constraints
 var oPaths = []string{"b", "b/", "b/f", "b/g", "b/d", "b/d/", "b/d/f", "b/d/d", "b/d/e/f", "b/d/e", "b/dx", "b/dx/f", "b/x", "b/x/y/h",
-	"", "/", "c/f", "/b/f", "gs://b/f", "b//f", "b\\d\\f", "b/b", "b/f/", "b/d/e/"}
+	"", "/", "c/f", "/b/f", "gs://b/f", "b//f", "b\\d\\f", "b/b", "b/f/", "b/d/e/", "\\b\\d\\f", "\\b\\f", "/b\\d/f", "\\b/d"}
 var oFlags = []int{0, 1, 2, os.O_CREATE, os.O_RDWR | os.O_CREATE, os.O_RDWR | os.O_CREATE | os.O_TRUNC, os.O_WRONLY | os.O_TRUNC,
 	os.O_WRONLY | os.O_APPEND, os.O_RDWR | os.O_APPEND, os.O_RDWR | os.O_CREATE | os.O_EXCL, os.O_APPEND}
 
